@@ -89,19 +89,46 @@ def gen_hash_case(rng):
             ops.append(["run"])
     ops.append(["run"])
     ops += [["pyread", i] for i in range(nv)]
-    return dict(vars=vars_, stmts=stmts, ops=ops)
+    # plain copies of (narrower) array-map / stack variables into hash-map
+    # variables, each source with a neighbour behind it
+    mixed = []
+    for _ in range(rng.choice([0, 1, 2, 3])):
+        fmt = rng.choice(FM + [">H", ">i", "<I", "!q"])
+        size = struct.calcsize(fmt)
+        mixed.append([rng.randrange(nv), rng.choice(["array", "local"]),
+                      fmt, sx(rng.getrandbits(64), fmt[-1]),
+                      rng.getrandbits(32) | 1])
+    return dict(vars=vars_, stmts=stmts, ops=ops, mixed=mixed)
 
 
 def build_hash(case):
+    from ebpfcat.ebpf import LocalVar
     h = HashMap()
     ns = {"license": "GPL", "h": h}
     for n, f, d in case["vars"]:
         ns[n] = h.globalVar(f, d)
+    mixed = case.get("mixed") or []
+    if mixed:
+        m = ArrayMap()
+        ns["m"] = m
+        for k, (dst, kind, fmt, val, nb) in enumerate(mixed):
+            ns[f"ms{k}"] = m.globalVar(fmt)
+            ns[f"mn{k}"] = m.globalVar("I")
+            if kind == "local":
+                ns[f"ml{k}"] = LocalVar(fmt)
+                ns[f"mk{k}"] = LocalVar("I")
 
     def program(self):
         for dst, src, c in case["stmts"]:
             s = getattr(self, case["vars"][src][0])
             setattr(self, case["vars"][dst][0], s + c if c else s)
+        for k, (dst, kind, fmt, val, nb) in enumerate(mixed):
+            if kind == "local":
+                setattr(self, f"mk{k}", getattr(self, f"mn{k}"))
+                setattr(self, f"ml{k}", getattr(self, f"ms{k}"))
+                setattr(self, case["vars"][dst][0], getattr(self, f"ml{k}"))
+            else:
+                setattr(self, case["vars"][dst][0], getattr(self, f"ms{k}"))
         self.r0 = 2
         self.exit()
     ns["program"] = program
@@ -182,6 +209,10 @@ def check_hash(case, res, monitor=False):
                             case=dict(kind="hash", **case))
                         return mon
                 else:
+                    for k, (dst, kind, fmt, val, nb) in enumerate(
+                            case.get("mixed") or []):
+                        setattr(e, f"ms{k}", val)
+                        setattr(e, f"mn{k}", nb)
                     ld.run_k(bytes(64))
                     # a plain copy `dst = src` may copy the whole 64-bit
                     # cell or the value src's format defines (the statement
@@ -199,6 +230,13 @@ def check_hash(case, res, monitor=False):
                                 b2[dst] = a[src]
                                 new.append(b2)
                         alts = new[:64]
+                    for k, (dst, kind, fmt, val, nb) in enumerate(
+                            case.get("mixed") or []):
+                        res.count("hash_copy_from_" + kind + (
+                            "_narrow" if struct.calcsize(fmt) < 8
+                            else "_wide"))
+                        for a in alts:
+                            a[dst] = val & ((1 << 64) - 1)
                     obs = {i: raw(i) for i in cells}
                     match = [a for a in alts if a == obs]
                     cells = match[0] if match else alts[0]
@@ -225,6 +263,10 @@ def check_hash(case, res, monitor=False):
 
 
 def hash_load_key(case, log):
+    if "invalid read from stack" in log and any(
+            k == "local" and struct.calcsize(f) < 8
+            for _, k, f, _, _ in case.get("mixed") or []):
+        return "unexplained:hash-load-narrow-stack-variable-copied-as-8-bytes"
     return "unexplained:hash-load"
 
 
